@@ -482,20 +482,30 @@ func runG5(r *Repo, rep *Report) {
 					}
 					nmut++
 					ok := false
+					noPos := false
 					if name == "derive.newPackage" && field == "Fun" && strings.HasSuffix(info.TypeOf(base).String(), "ast.CallExpr") && i < len(s.Rhs) {
-						if c, isCall := s.Rhs[i].(*ast.CallExpr); isCall && isPkgFunc(callee(info, c), "go/ast", "NewIdent") && len(c.Args) == 1 {
-							// the new identifier must be the name returned by (*pkg).Add
-							if g5FromAdd(r, fi, c.Args[0]) {
+						nameE, posE := replacementIdent(info, s.Rhs[i])
+						// the new identifier must be the name returned by (*pkg).Add …
+						if nameE != nil && g5FromAdd(r, fi, nameE) {
+							// … and stand where the old one stood: NamePos: <the same call>.Fun.Pos()
+							if posE != nil && exprStr(posE) == exprStr(l)+".Pos()" {
 								ok = true
+							} else {
+								noPos = true
 							}
 						}
+					}
+					if noPos {
+						rep.fail(Finding{Rule: "G5", Key: fmt.Sprintf("G5|%s|store|%s|no-position", name, field), Where: []string{r.pos(s.Pos())},
+							Msg: fmt.Sprintf("%s replaces the call identifier by one without the position of the identifier it replaces (%s): the printer then places comments that stood in front of the call behind the new name, so the rewritten file is not the gofmt formatting of the original with just the identifier substituted", name, exprStr(s.Rhs[i]))})
+						continue
 					}
 					if ok {
 						rep.pass("G5")
 						rep.sample(map[string]string{"rule": "G5 AST store", "site": r.pos(s.Pos()), "store": exprStr(l) + " = " + exprStr(s.Rhs[i])})
 					} else {
 						rep.fail(Finding{Rule: "G5", Key: fmt.Sprintf("G5|%s|store|%s", name, field), Where: []string{r.pos(s.Pos())},
-							Msg: fmt.Sprintf("%s mutates the user's syntax tree (%s): the only permitted store is `call.Expr.Fun = ast.NewIdent(<name returned by Add>)` in newPackage", name, exprStr(l))})
+							Msg: fmt.Sprintf("%s mutates the user's syntax tree (%s): the only permitted store is `call.Expr.Fun = &ast.Ident{NamePos: call.Expr.Fun.Pos(), Name: <name returned by Add>}` in newPackage", name, exprStr(l))})
 					}
 				}
 			case *ast.CallExpr:
@@ -996,4 +1006,35 @@ func g10Discovery(r *Repo, rep *Report) {
 			rep.pass("G10")
 		}
 	}
+}
+
+// replacementIdent recognises the two ways of building the replacement identifier: ast.NewIdent(name) (no position) and
+// &ast.Ident{NamePos: pos, Name: name}; it returns the name expression and the position expression (nil if none).
+func replacementIdent(info *types.Info, e ast.Expr) (nameE, posE ast.Expr) {
+	if c, ok := e.(*ast.CallExpr); ok && isPkgFunc(callee(info, c), "go/ast", "NewIdent") && len(c.Args) == 1 {
+		return c.Args[0], nil
+	}
+	u, ok := e.(*ast.UnaryExpr)
+	if !ok || u.Op != token.AND {
+		return nil, nil
+	}
+	cl, ok := u.X.(*ast.CompositeLit)
+	if !ok || !strings.HasSuffix(exprStr(cl.Type), "ast.Ident") {
+		return nil, nil
+	}
+	for _, el := range cl.Elts {
+		kv, ok := el.(*ast.KeyValueExpr)
+		if !ok {
+			return nil, nil
+		}
+		switch exprStr(kv.Key) {
+		case "Name":
+			nameE = kv.Value
+		case "NamePos":
+			posE = kv.Value
+		default:
+			return nil, nil // Obj etc.: not a plain identifier
+		}
+	}
+	return nameE, posE
 }
